@@ -672,7 +672,7 @@ class Interp(object):
         if f.ytrace is None:
             raise OutOfSubset("yield outside generator frame")
         c = f.contract
-        if c is not None and f.verifying:
+        if c is not None and f.verifying and not getattr(f, "suppress_yield_checks", False):
             for name, expr in c.yields_each_:
                 self.path.oblige(self.oblname("yields_each/" + name), self.spec(expr, f.entry_env, extra={"item": v}), kind="yield")
         f.ytrace.add_item(v)
